@@ -203,6 +203,9 @@ def install_probes():
     orig_process = cl._ControlLoopRunner._process_tick
 
     async def process_probe(self, tick):
+        _tr = _CUR["trace"]
+        if _tr is not None:
+            _tr.extra.setdefault("proc_log", []).append((id(self), self.adapter.run_id, type(tick).__name__, vclock.vnow()))
         try:
             return await orig_process(self, tick)
         finally:
